@@ -2,11 +2,15 @@ package harness
 
 import (
 	"fmt"
+	"k8s.io/apimachinery/pkg/api/resource"
+	metav1 "k8s.io/apimachinery/pkg/apis/meta/v1"
+	"k8s.io/apimachinery/pkg/types"
 	"os"
 	"sort"
 	"strings"
 	"testing"
 	"time"
+	"verif/harness/ref"
 
 	corev1 "k8s.io/api/core/v1"
 	apierrors "k8s.io/apimachinery/pkg/api/errors"
@@ -53,20 +57,81 @@ func drawC08(t *rapid.T) *c08Scenario {
 	k.MultiRound = false
 	k.Mutations = false
 	d := drawDisrupt(t, k)
+	crafted := dpct(t, 35, "c08MultiReplace")
+	if crafted {
+		c08MultiReplaceWorld(t, d)
+	}
 	// the history: commands are started, then replacements initialize, vanish or stall, the clock moves (up to past the
 	// command timeout), the controllers restart, nodes finish terminating
 	n := rapid.IntRange(2, 9).Draw(t, "c08Steps")
 	d.Steps = []dStep{{Kind: "disrupt"}}
 	for i := 1; i < n; i++ {
 		l := fmt.Sprintf("c08step%d", i)
-		kind := rapid.SampledFrom([]string{"queue", "init", "disrupt", "initOne", "queue", "lose", "advance", "finish", "restart", "loseLag"}).Draw(t, l+"_kind")
+		kind := rapid.SampledFrom([]string{"queue", "init", "disrupt", "initOne", "queue", "lose", "advance", "finish", "restart", "loseLag", "candidateGone"}).Draw(t, l+"_kind")
 		st := dStep{Kind: kind}
 		if kind == "advance" {
 			st.Sec = rapid.SampledFrom([]int{1, 30, 300, 601, 3700}).Draw(t, l+"_sec")
 		}
 		d.Steps = append(d.Steps, st)
 	}
+	if crafted {
+		// a failure-oriented prefix: the command starts, possibly loses a candidate, then its replacement fails one way
+		// or another (or initializes), then the queue looks at it; the random tail follows
+		prefix := []dStep{{Kind: "disrupt"}}
+		if rapid.Bool().Draw(t, "c08mrCandidateGone") {
+			prefix = append(prefix, dStep{Kind: "candidateGone"})
+		}
+		switch rapid.IntRange(0, 3).Draw(t, "c08mrFailure") {
+		case 0:
+			prefix = append(prefix, dStep{Kind: "lose"})
+		case 1:
+			prefix = append(prefix, dStep{Kind: "loseLag"})
+		case 2:
+			prefix = append(prefix, dStep{Kind: "advance", Sec: 601})
+		default:
+			prefix = append(prefix, dStep{Kind: "init"})
+		}
+		prefix = append(prefix, dStep{Kind: "queue"})
+		d.Steps = append(prefix, d.Steps[1:]...)
+	}
 	return &c08Scenario{D: d, FaultKinds: rapid.SliceOfN(rapid.IntRange(0, 3), 6, 6).Draw(t, "faultKinds")}
+}
+
+// c08MultiReplaceWorld rewrites the world so that multi-node consolidation finds a replace command with 2-3 candidates:
+// identical expensive nodes, one mid-sized pod each, and a cheaper type that holds all the pods together.
+func c08MultiReplaceWorld(t *rapid.T, d *dScenario) {
+	w := d.World
+	n := rapid.IntRange(2, 3).Draw(t, "c08mrNodes")
+	w.Catalog = []sim.ITSpec{
+		{Name: "big", Arch: "amd64", OS: []string{"linux"}, Family: "f1", Gen: "1", Capacity: map[string]string{"cpu": "16", "memory": "32Gi", "pods": "110"},
+			Offerings: []sim.OfferingSpec{{Zone: "zone-a", CapacityType: v1.CapacityTypeOnDemand, Price: 5, Available: true}}},
+		{Name: "mid", Arch: "amd64", OS: []string{"linux"}, Family: "f1", Gen: "1", Capacity: map[string]string{"cpu": "8", "memory": "16Gi", "pods": "110"},
+			Offerings: []sim.OfferingSpec{{Zone: "zone-a", CapacityType: v1.CapacityTypeOnDemand, Price: rapid.SampledFrom([]float64{1, 2, 4}).Draw(t, "c08mrPrice"), Available: true}}},
+	}
+	pool := w.Pools[0]
+	pool.Spec.Template.Spec.Requirements = nil
+	pool.Spec.Template.Spec.Taints = nil
+	pool.Spec.Template.Spec.StartupTaints = nil
+	pool.Spec.Template.Labels = nil
+	pool.Spec.Replicas = nil
+	pool.Spec.Limits = nil
+	pool.Spec.Disruption.ConsolidationPolicy = v1.ConsolidationPolicyWhenEmptyOrUnderutilized
+	pool.Spec.Disruption.ConsolidateAfter = v1.MustParseNillableDuration("0s")
+	pool.Spec.Disruption.Budgets = []v1.Budget{{Nodes: "100%"}}
+	w.Pools = []*v1.NodePool{pool}
+	d.Budgets = map[string][]ref.BudgetSpec{pool.Name: {{Nodes: "100%"}}}
+	w.Nodes, w.Bound, w.DaemonSets, w.DaemonOn, w.Pending = nil, nil, nil, nil, nil
+	d.NodeX, d.PodX, d.PDBs = map[string]dNodeX{}, map[string]dPodX{}, nil
+	for i := 0; i < n; i++ {
+		name := fmt.Sprintf("node-%d", i)
+		w.Nodes = append(w.Nodes, sim.NodeSpec{Name: name, Pool: pool.Name, TypeName: "big", Zone: "zone-a", CT: v1.CapacityTypeOnDemand, OS: "linux", Stage: sim.StageInitialized, AgeSeconds: 4000})
+		d.NodeX[name] = dNodeX{}
+		p := sim.Bound(&corev1.Pod{ObjectMeta: metav1.ObjectMeta{Name: fmt.Sprintf("bound-%02d", i), Namespace: "default", UID: types.UID(fmt.Sprintf("bound-uid-%02d", i)), Labels: map[string]string{"app": "web"},
+			OwnerReferences: []metav1.OwnerReference{{APIVersion: "apps/v1", Kind: "ReplicaSet", Name: "rs", UID: "rs-uid", Controller: lo_ptr(true)}}},
+			Spec: corev1.PodSpec{Containers: []corev1.Container{{Name: "c", Image: "img", Resources: corev1.ResourceRequirements{Requests: corev1.ResourceList{corev1.ResourceCPU: resource.MustParse("2")}}}}}}, name)
+		p.Status.Phase = corev1.PodRunning
+		w.Bound = append(w.Bound, p)
+	}
 }
 
 type c08Result struct {
@@ -74,10 +139,11 @@ type c08Result struct {
 	violations []ev.Violation
 	// shape of the run
 	started, withReplacement, deletes, failedStarts, unsuccessful int
-	faultFired                                                  bool
-	faultInProtocol                                             bool
-	unsynced                                                    bool
-	rolledBackByQueue                                           int
+	faultFired                                                    bool
+	faultInProtocol                                               bool
+	unsynced                                                      bool
+	rolledBackByQueue                                             int
+	multiCandidateReplace                                         int
 }
 
 func c08Err(kind int, c *sim.Call) error {
@@ -283,6 +349,10 @@ func runC08(s *c08Scenario, faultIdx, kind int) *c08Result {
 			r.initSome(1)
 		case "lose":
 			r.loseReplacement()
+		case "candidateGone":
+			// a candidate of a command in flight leaves the cluster for an unrelated reason (interruption, manual
+			// force-delete): its Node and NodeClaim disappear
+			r.candidateGone()
 		case "loseLag":
 			// the replacement disappears from the API but the informers have not delivered the deletion yet
 			r.loseReplacementNoSync()
@@ -344,6 +414,9 @@ func runC08(s *c08Scenario, faultIdx, kind int) *c08Result {
 		res.started++
 		if len(rec.replacements) > 0 {
 			res.withReplacement++
+			if len(rec.candidates) > 1 {
+				res.multiCandidateReplace++
+			}
 		}
 		if !rec.entered {
 			res.failedStarts++
@@ -448,6 +521,7 @@ func execC08(s *c08Scenario, c *ev.Ctx) {
 	c.Add("commands", base.started)
 	c.Add("queue_deletes", base.deletes)
 	c.ClassIf(base.withReplacement > 0, "command_with_replacement")
+	c.ClassIf(base.multiCandidateReplace > 0, "multi_candidate_command_with_replacement")
 	c.ClassIf(base.deletes > 0, "candidates_deleted")
 	c.ClassIf(base.unsuccessful > 0, "action_ended_without_removing_candidate")
 	c.ClassIf(base.failedStarts > 0, "start_failed")
@@ -461,7 +535,7 @@ func execC08(s *c08Scenario, c *ev.Ctx) {
 
 var propC08 = ev.Prop[c08Scenario]{
 	ID: "C08", Test: "TestC08", Level: "fault_enumeration",
-	Rule: "rapid draws a disruption world biased to drift (dynamic and static pools) and replace-consolidation, and a history of 2-9 steps from {disruption reconcile, queue reconcile, all / one replacement becomes Initialized through the real lifecycle controller, a replacement vanishes (with or without the informers having delivered the deletion), clock +1s..+61m (past the command timeout), nodes finish terminating, controller restart (new cluster state, queue, provisioner, methods)}; a fault-free run counts the faultable calls (every API write of the disruption controller and queue, plus every read made between a method returning commands and the end of StartCommand and inside queue reconciles), then EACH index is failed once (quick: one drawn kind of 500 / conflict / persistent-500-until-the-controller-call-returns / NotFound, thorough: all four); " +
+	Rule: "rapid draws a disruption world biased to drift (dynamic and static pools) and replace-consolidation, and a history of 2-9 steps from {disruption reconcile, queue reconcile, all / one replacement becomes Initialized through the real lifecycle controller, a candidate of a command in flight vanishes, a replacement vanishes (with or without the informers having delivered the deletion), clock +1s..+61m (past the command timeout), nodes finish terminating, controller restart (new cluster state, queue, provisioner, methods)}; a fault-free run counts the faultable calls (every API write of the disruption controller and queue, plus every read made between a method returning commands and the end of StartCommand and inside queue reconciles), then EACH index is failed once (quick: one drawn kind of 500 / conflict / persistent-500-until-the-controller-call-returns / NotFound, thorough: all four); " +
 		"oracle: monitor at the instant of every NodeClaim delete issued by the queue - the claim is a candidate of a computed command, every replacement of that command exists and is Initialized in the API, and the command is not past its timeout; after every step no provider id belongs to two commands and no method selects a node of a command in flight; after the history and ONE fault-free disruption reconcile, every candidate of a command that is no longer in the queue and that was not deleted carries neither the disruption taint nor the DisruptionReason condition and is not marked for deletion in the cluster state; " +
 		"non-trivial = the scenario started a command with a replacement and the fault landed inside the protocol (StartCommand or a queue reconcile), or such a command ended without removing its candidate; evaluations are scenarios, executions (scenario x fault) are in the counters",
 	Assumptions: []string{"client-go's retry.DefaultBackoff keeps its four attempts but does not sleep real time", "calls of one command's candidates run in parallel goroutines: the fault index is an index into whatever order they took"},
